@@ -294,13 +294,38 @@ def check_chain(res, facts, trait, rem_m, has_m, touching):
 
 
 def mentions_dst(e):
-    # the raw tree as well: a running sum kept in a loop variable is a phi, whose alternatives canon() hides
-    for x in list(walk(e)) + list(walk(canon(e))):
+    """`e` (what a.remaining() is compared with) is computed from the slices that `a` listed and from nothing else in dst:
+    every use of dst sits under `dst[..n]` with n the count a.chunks_vectored reported (or is the argument of that very
+    call). Slices beyond n are whatever the caller left there and say nothing about `a`."""
+    state = {"good": 0, "bad": 0}
+
+    def is_cnt(x):
+        return any(isinstance(y, tuple) and y and y[0] == "ucall" and y[1].endswith("chunks_vectored") for y in walk(x))
+
+    def rec(x, depth=0):
+        if not isinstance(x, tuple) or not x or depth > 60:
+            return
         if x == ("param", 2):
-            return True
+            state["bad"] += 1
+            return
         if x[0] == "ucall" and x[1].endswith("chunks_vectored"):
-            return True
-    return False
+            state["good"] += 1          # the reported count itself; its dst argument is not a use of dst's contents
+            return
+        if x[0] == "call" and x[1].rsplit("::", 1)[-1] in ("index", "index_mut", "get", "get_mut", "get_unchecked") and len(x[2]) == 2:
+            base, rng = x[2]
+            if strip_refs(base) == ("param", 2) and isinstance(rng, tuple) and rng and rng[0] == "agg" and isinstance(rng[1], tuple) \
+                    and rng[1][1].rsplit("::", 1)[-1] == "RangeTo" and is_cnt(rng[2][0]):
+                state["good"] += 1
+                return
+        if x[0] == "call" and x[1].rsplit("::", 1)[-1] == "take" and len(x[2]) == 2 and is_cnt(x[2][1]):
+            state["good"] += 1          # dst.iter().take(n)
+            return
+        for y in x:
+            if isinstance(y, tuple):
+                rec(y, depth + 1)
+    rec(e)
+    rec(canon(e))
+    return state["good"] > 0 and state["bad"] == 0
 
 
 # ---- Reader / Writer ------------------------------------------------------------------------------
@@ -456,7 +481,26 @@ def check_take_vectored(res, facts):
                             bounded = True
             if not bounded:
                 probs.append("the scratch slice given to the inner buffer is not cut to min(dst.len(), ..): the inner count can exceed dst.len()")
+    # dst is written only for the slices the inner buffer actually listed: the copying loop is bounded by the inner count
+    # (a `..cnt` range over dst or the scratch array, a `0..cnt` loop, or `.take(cnt)`), never by the number of free slots
+    def is_cnt(x):
+        return any(isinstance(y, tuple) and y and y[0] == "ucall" and y[1].endswith("chunks_vectored") for y in walk(x))
+    bounded = False
+    for bi, t in b.calls():
+        if b.blocks[bi]["cleanup"]:
+            continue
+        loc = (bi, len(b.blocks[bi]["stmts"]))
+        for a in t["args"]:
+            e = eb.operand(a, loc)
+            for x in walk(e):
+                if isinstance(x, tuple) and x and x[0] == "agg" and isinstance(x[1], tuple) and x[1][1].rsplit("::", 1)[-1] in ("RangeTo", "Range", "RangeToInclusive") \
+                        and x[2] and is_cnt(x[2][-1]):
+                    bounded = True
+                if isinstance(x, tuple) and x and x[0] == "call" and x[1].rsplit("::", 1)[-1] == "take" and len(x[2]) == 2 and is_cnt(x[2][1]):
+                    bounded = True
+    if inner_calls and not bounded:
+        probs.append("the loop that fills dst is not bounded by the count the inner buffer reported: slots beyond the returned count are overwritten")
     if probs:
         res.bad(key, b.loc(), "; ".join(probs))
     else:
-        res.ok(key, b.loc(), "inner.chunks_vectored(&mut scratch[..min(dst.len(), N)])", nontrivial=True)
+        res.ok(key, b.loc(), "inner.chunks_vectored(&mut scratch[..min(dst.len(), N)]); dst filled for the listed slices only", nontrivial=True)
